@@ -12,6 +12,7 @@ import (
 	"encoding/binary"
 	"hash"
 	"math/big"
+	"math/bits"
 	"reflect"
 	"sync"
 	"unsafe"
@@ -92,6 +93,32 @@ func (w *snapWalker) tag(b byte, n uint64) {
 
 func (w *snapWalker) raw(p unsafe.Pointer, n uintptr) {
 	if n == 0 {
+		return
+	}
+	if n >= 1<<12 && uintptr(p)%8 == 0 {
+		// large flat memory (point/scalar vectors, tables): four lanes of a multiply-rotate word hash, whose
+		// 32-byte state goes into the SHA-256 stream. The snapshots are taken after every call, on every shared
+		// object of the group, and SHA-256 of megabytes per call would dominate the run.
+		words := unsafe.Slice((*uint64)(p), n/8)
+		l := [4]uint64{0x9e3779b97f4a7c15, 0xbf58476d1ce4e5b9, 0x94d049bb133111eb, 0x2545f4914f6cdd1d}
+		i := 0
+		for ; i+4 <= len(words); i += 4 {
+			l[0] = bits.RotateLeft64((l[0]^words[i])*0xff51afd7ed558ccd, 29)
+			l[1] = bits.RotateLeft64((l[1]^words[i+1])*0xc4ceb9fe1a85ec53, 31)
+			l[2] = bits.RotateLeft64((l[2]^words[i+2])*0x9fb21c651e98df25, 27)
+			l[3] = bits.RotateLeft64((l[3]^words[i+3])*0xd6e8feb86659fd93, 33)
+		}
+		for ; i < len(words); i++ {
+			l[0] = bits.RotateLeft64((l[0]^words[i])*0xff51afd7ed558ccd, 29)
+		}
+		var st [32]byte
+		for k := range l {
+			binary.LittleEndian.PutUint64(st[8*k:], l[k])
+		}
+		w.h.Write(st[:])
+		if tail := n % 8; tail != 0 {
+			w.h.Write(unsafe.Slice((*byte)(unsafe.Add(p, n-tail)), tail))
+		}
 		return
 	}
 	w.h.Write(unsafe.Slice((*byte)(p), n))
